@@ -49,8 +49,11 @@
      pairs likewise (`…_setsim_both_empty`).  For EVERY entry point the rows added by `allow_missing=True` are
      permuted (`presentation_row_permutation_missing`).
   4. REPEATING THE CALL: the model's entry points are pure functions, so two calls with the same arguments are the
-     same term — `presentation_repeat`, by `rfl`.  That a real second call sees the same tokenizer flag is C12; that
-     a call does not modify its input tables is outside the model.
+     same term — `presentation_repeat`, by `rfl`: the triviality "a function of its arguments", kept only to mark the
+     place.  It says NOTHING about the real code; that a repeated call, or a call in another process (`n_jobs`
+     workers, a fresh interpreter, another hash seed), gives the same result is a RUNTIME fact, checked by the
+     oracles of the harness (repeat / determinism suites), not by a theorem.  That a real second call sees the same
+     tokenizer flag is C12; that a call does not modify its input tables is outside the model.
 
   HYPOTHESES, in plain words.  1 and 2: `a.ltable = some l`, `a.rtable = some r` (the call was given tables), nothing
   else.  3: the first call's arguments are valid (validity of the second is DERIVED; only `…_missing`, which speaks
@@ -339,8 +342,11 @@ theorem presentation_row_permutation_missing {call call' : Bool → Int → Int 
 
 /-! ## 4. repeating the call -/
 
-/-- REPEAT: the entry points of the model are functions — the same arguments give the same outcome, by reflexivity
-    (a remark rather than a theorem; what a second REAL call could see differently — the tokenizer flag — is C12) -/
+/-- REPEAT: the entry points of the model are functions — the same arguments give the same outcome.  This is `rfl`:
+    the triviality "a function of its arguments", true of every Lean function and carrying no information about
+    the real code.  That repeating a REAL call, or running it in other processes, gives the same result is a runtime
+    fact checked by the oracles of the harness, not here (what a second real call could see differently inside the
+    model's vocabulary — the tokenizer flag — is C12). -/
 theorem presentation_repeat (m : Measure) (a : JoinArgs) (t : TokObj) (toks : TokFn) (cpu : Int) :
     setSimJoinPy m a t toks cpu = setSimJoinPy m a t toks cpu ∧
     overlapCoefficientJoinPy a t toks cpu = overlapCoefficientJoinPy a t toks cpu ∧
